@@ -946,11 +946,11 @@ func recordFieldRoles(P *Program) (T *types.Named, offset, codec string) {
 // ---------- roles of the bank's and the file writer's fields
 
 type bankRoles struct {
-	ok                           bool
-	types, sData                 string // ResourceBank: the arena table, the string store
-	ptyp, array, cap, len, size  string // the arena entry
-	rb                           string // ReadBuf: its bank
-	entry                        *types.Named
+	ok                          bool
+	types, sData                string // ResourceBank: the arena table, the string store
+	ptyp, array, cap, len, size string // the arena entry
+	rb                          string // ReadBuf: its bank
+	entry                       *types.Named
 }
 
 var bankRoleCache = map[*Program]*bankRoles{}
@@ -1069,7 +1069,7 @@ func resourceRoles(P *Program) *bankRoles {
 }
 
 type writerRoles struct {
-	ok                                     bool
+	ok                                    bool
 	sync, schema, compression, compressor string
 }
 
